@@ -22,6 +22,7 @@ Semantics of the translation (the translator is in the trusted base; it is small
   * conversions                                              -> `BitVec.ofInt`, `BitVec.toNat` / `BitVec.toInt` at the
                                                               source/target widths (gcc's modular conversion);
   * `(int)(0.75 * (double)e)`                                -> `Int.tdiv (3 * e) 4` (exact for |e| < 2^50);
+  * `(int)sqrt((double)e)`                                   -> `Nat.sqrt e` (exact for 0 <= e < 2^52);
   * locals are immutable `let`s re-bound on assignment; `if` without `return` inside yields the tuple of the
     variables it assigns; `if` whose branches return duplicates the continuation; `for`/`while` (no `break`,
     `continue`, `return` inside) become `CLoop.loop fuel cond body state` over the tuple of assigned variables, where
@@ -385,6 +386,24 @@ class Fn:
             raise CTransError('%s: unsupported pointer argument' % self.name)
         return self.value(n)
 
+    def float_int(self, n):
+        """Lean Int term for a double-typed C expression that is integer-valued by construction (integer literals,
+        converted integers, their sums / differences / products; exact below 2^53)"""
+        n = strip(n)
+        k = n.get('kind')
+        if k == 'FloatingLiteral':
+            v = float(n['value'])
+            if v != int(v):
+                raise CTransError('%s: non-integral floating literal %s' % (self.name, n['value']))
+            return '(%d : Int)' % int(v)
+        if k in ('CStyleCastExpr', 'ImplicitCastExpr') and n.get('castKind') == 'IntegralToFloating':
+            return self.as_int(n['inner'][0])
+        if k in ('CStyleCastExpr', 'ImplicitCastExpr') and n.get('castKind') in ('NoOp', 'FloatingCast'):
+            return self.float_int(n['inner'][0])
+        if k == 'BinaryOperator' and n['opcode'] in ('*', '+', '-'):
+            return '(%s %s %s)' % (self.float_int(n['inner'][0]), n['opcode'], self.float_int(n['inner'][1]))
+        raise CTransError('%s: unsupported floating-point expression' % self.name)
+
     def float_to_int(self, n):
         """(int)(0.75 * (double) e)  ->  Int.tdiv (3 * e) 4"""
         n = strip(n)
@@ -393,6 +412,11 @@ class Fn:
             if a.get('kind') == 'FloatingLiteral' and float(a['value']) == 0.75 and \
                b.get('kind') == 'ImplicitCastExpr' and b.get('castKind') == 'IntegralToFloating':
                 return '(Int.tdiv (3 * %s) 4)' % self.value(b['inner'][0])
+        if n.get('kind') == 'CallExpr':
+            callee = strip(n['inner'][0])
+            if callee.get('kind') == 'DeclRefExpr' and callee['referencedDecl']['name'] == 'sqrt' and len(n['inner']) == 2:
+                # (int)sqrt(e) = floor(sqrt(e)) exactly for an integer-valued 0 <= e < 2^52 (correctly rounded sqrt)
+                return '(Int.ofNat (Nat.sqrt (%s).toNat))' % self.float_int(n['inner'][1])
         raise CTransError('%s: unsupported floating-point expression' % self.name)
 
     # ------------------------------------------------------------ statements
